@@ -126,10 +126,13 @@ def countOf : List (R × Nat) → R → Nat
   | [], _ => 0
   | (k, v) :: rest, r => if k = r then v else countOf rest r
 
-/-- weight the documentation gives to EACH model that read `r` is listed under: 1 when the read is assigned to one
-    model (`read_assignment_counts[r] = 1`), otherwise the ambiguous weight for the number of models listed -/
-def readModelWeight (s : CountingStrategy) (tr : List (F × List R)) (cnt : List (R × Nat)) (r : R) : Rat :=
-  if countOf cnt r = 1 then 1 else docWeight s .ambiguous (modelsOf (incidences tr) r).length
+/-- weight of ONE (model `f`, read `r`) listing of `transcript_read_ids`: 1 when the read is assigned once
+    (`read_assignment_counts[r] = 1`); otherwise the read is shared by the DISTINCT models it is listed under - each of
+    them gets the ambiguous weight for that number of models - and a model under which the read is listed several times
+    (several alignment records of one read id) gets it once: an even share per listing (`read_weight_per_model`) -/
+def readModelWeight (s : CountingStrategy) (tr : List (F × List R)) (rc : List (R × Nat)) (r : R) (f : F) : Rat :=
+  if countOf rc r = 1 then 1
+  else docWeight s .ambiguous (dedup (modelsOf (incidences tr) r)).length / cnt (modelsOf (incidences tr) r) f
 
 /-- `read_assignment_counts` agrees with `transcript_read_ids`: every listed read is counted once per model it is
     listed under (what `assign_reads_to_models` / `save_assigned_read` / `delete` maintain) -/
